@@ -21,13 +21,13 @@ log.addHandler(logging.NullHandler())
 log.propagate = False
 
 
-def mk_image(rnd, shape, positions, crval=None, beam_pix=(5.0, 4.0, 10.0), noise=0.02, amps=None, blank_cols=0):
+def mk_image(rnd, shape, positions, crval=None, beam_pix=(5.0, 4.0, 10.0), noise=0.02, amps=None, blank_cols=0, scale=None):
     h = fits.Header()
     h['NAXIS'], h['NAXIS1'], h['NAXIS2'] = 2, shape[1], shape[0]
     h['CTYPE1'], h['CTYPE2'] = 'RA---SIN', 'DEC--SIN'
     ra0, dec0 = crval if crval else (rnd.uniform(5, 355), rnd.uniform(-60, 60))
     h['CRVAL1'], h['CRVAL2'] = ra0, dec0
-    s = 10 / 3600
+    s = scale or 10 / 3600
     h['CDELT1'], h['CDELT2'] = -s, s
     h['CRPIX1'], h['CRPIX2'] = shape[1] / 2.0, shape[0] / 2.0
     h['BMAJ'], h['BMIN'], h['BPA'] = beam_pix[0] * s, beam_pix[1] * s, beam_pix[2]
@@ -49,6 +49,25 @@ def parse_sex(s):
     sign = -1 if s.strip().startswith('-') else 1
     p = [float(v) for v in s.strip().lstrip('+-').split(':')]
     return sign * (p[0] + p[1] / 60 + p[2] / 3600)
+
+
+def sex_fields_ok(sx, first_lt):
+    p = [float(v) for v in sx.strip().lstrip('+-').split(':')]
+    return len(p) == 3 and 0 <= p[0] < first_lt and 0 <= p[1] < 60 and 0 <= p[2] < 60
+
+
+def strings_failures():
+    """ra_str / dec_str of hand-made positions at the wrap and the poles, through the same formatters the finder uses"""
+    from AegeanTools.angle_tools import dec2hms, dec2dms
+    for ra in (0.0, 359.99998, 359.9999792, 359.99999, 359.9999999, 14.99999999, 180.0, 359.5):
+        sx = dec2hms(ra)
+        if not sex_fields_ok(sx, 24) or abs(((parse_sex(sx) * 15 - ra + 180) % 360) - 180) > 1e-5 * 15:
+            return [("strings_are_sexagesimal_of_stored_decimals", "dec2hms(%r) = %s" % (ra, sx))]
+    for dec in (-90.0, -89.9999999, -0.0000001, 0.0, 0.99999999, 45.0, 89.9999999, 90.0):
+        sx = dec2dms(dec)
+        if not sex_fields_ok(sx, 91) or abs(parse_sex(sx) - dec) > 1e-5:
+            return [("strings_are_sexagesimal_of_stored_decimals", "dec2dms(%r) = %s" % (dec, sx))]
+    return []
 
 
 def row_failures(rows, psf_ok=True):
@@ -76,6 +95,8 @@ def row_failures(rows, psf_ok=True):
                 bad = ("pa_in_range", "pa=%r" % r.pa)
             elif not 0 <= r.ra < 360:
                 bad = ("ra_wrapped", "ra=%r" % r.ra)
+            elif not sex_fields_ok(r.ra_str, 24) or not sex_fields_ok(r.dec_str, 91):
+                bad = ("strings_are_sexagesimal_of_stored_decimals", "field out of range: ra_str=%s dec_str=%s" % (r.ra_str, r.dec_str))
             elif abs(parse_sex(r.ra_str) * 15 - r.ra) > 1e-5 * 15 or abs(parse_sex(r.dec_str) - r.dec) > 1e-5:
                 bad = ("strings_are_sexagesimal_of_stored_decimals", "ra=%r %s dec=%r %s" % (r.ra, r.ra_str, r.dec, r.dec_str))
             elif psf_ok and r.psf_a > 0 and np.isfinite(r.int_flux) and r.peak_flux != 0 and \
@@ -162,6 +183,33 @@ def blind_case(seed):
     return out, rows
 
 
+def _sep(ra1, dec1, ra2, dec2):
+    r = np.radians
+    a = np.sin(r(dec2 - dec1) / 2) ** 2 + np.cos(r(dec1)) * np.cos(r(dec2)) * np.sin(r(ra2 - ra1) / 2) ** 2
+    return np.degrees(2 * np.arcsin(np.sqrt(a)))
+
+
+def widefield_case(seed):
+    """a 40 degree SIN field: sources up to 25 degrees from the reference pixel"""
+    rnd = random.Random(seed)
+    shape = (160, 160)
+    pos = [(20 + 40 * i + rnd.uniform(-3, 3), 20 + 40 * j + rnd.uniform(-3, 3)) for i in range(4) for j in range(4)]
+    crval = (rnd.uniform(30, 300), rnd.uniform(-30, 30))
+    path, noise, img = mk_image(rnd, shape, pos, crval=crval, scale=0.25)
+    try:
+        rows = SourceFinder(log=log).find_sources_in_image(path, rms=noise, bkg=0.0, cores=1)
+    finally:
+        shutil.rmtree(os.path.dirname(path), ignore_errors=True)
+    near = [r for r in rows if isinstance(r, ComponentSource) and _sep(r.ra, r.dec, crval[0], crval[1]) <= 15]
+    far = [r for r in rows if isinstance(r, ComponentSource) and _sep(r.ra, r.dec, crval[0], crval[1]) > 15]
+    out = row_failures(near)
+    # beyond ~15 degrees from the reference pixel the sky ellipse (a, b) of a sheared projection no longer has the area ratio of
+    # the pixel ellipse: a separate label (known finding), every other clause is still checked
+    for lab, what in row_failures(far):
+        out.append((lab + ".wide_field" if lab == "int_flux_formula" else lab, what))
+    return out, rows
+
+
 def priorized_case(seed, many=False):
     rnd = random.Random(seed)
     if many:
@@ -177,6 +225,16 @@ def priorized_case(seed, many=False):
         if not found:
             return [], []
         sf2 = SourceFinder(log=log)
+        dropped = 0
+        if many and found:
+            # a catalogue row that cannot be fitted (off the image) among the first batch of groups
+            import copy as _copy
+            ghost = _copy.copy(found[0])
+            ghost.uuid = 'ghost'
+            ghost.ra, ghost.dec = (found[0].ra + 2.0) % 360, found[0].dec
+            ghost.island, ghost.source = 100000, 0
+            found = found[:3] + [ghost] + found[3:]
+            dropped = 1
         rows = sf2.priorized_fit_islands(path, catalogue=found, rms=noise, bkg=0.0, cores=1, stage=rnd.choice([1, 2, 3]),
                                          doregroup=rnd.random() < 0.7, regroup_eps=rnd.choice([None, 0.5]))
         # a prior catalogue that is itself the product of priorized fitting (flags already carry PRIORIZED)
@@ -185,8 +243,8 @@ def priorized_case(seed, many=False):
     finally:
         shutil.rmtree(os.path.dirname(path), ignore_errors=True)
     out = row_failures(rows) + row_failures(rows2)
-    if len(rows) != len(found):
-        out.append(("one_row_per_component", "priorized fit of %d input components returned %d rows" % (len(found), len(rows))))
+    if len(rows) != len(found) - dropped:
+        out.append(("one_row_per_component", "priorized fit of %d usable input components returned %d rows" % (len(found) - dropped, len(rows))))
     return out, rows
 
 
@@ -253,6 +311,15 @@ def crosscheck(p):
             fl = [("priorized_run_completes", "priorized_fit_islands raised %r" % (e,))]
         _collect(failures, seen, fl, {"priorized_seed": s0 + i, "many": i % 3 == 0},
                  {"priorized_seeds": [[s0 + i, i % 3 == 0]]})
+    evals += 1
+    _collect(failures, seen, strings_failures(), {"strings": True}, {"strings": True})
+    for i in ([0] + [s0 + j for j in range(1, 4 if thorough else 1)]):
+        evals += 1
+        try:
+            fl = widefield_case(i)[0]
+        except Exception as e:
+            fl = [("blind_run_completes", "wide-field find_sources_in_image raised %r" % (e,))]
+        _collect(failures, seen, fl, {"widefield_seed": i}, {"widefield_seeds": [i]})
     for i in range(3000 if thorough else 400):
         evals += 1
         try:
@@ -270,7 +337,16 @@ def crosscheck(p):
 def replay_catalogue(p):
     bad = []
     ob = p.get("obligation", "")
-    explicit = any(k in p for k in ("blind_seeds", "priorized_seeds", "errors_seeds"))
+    explicit = any(k in p for k in ("blind_seeds", "priorized_seeds", "errors_seeds", "strings", "widefield_seeds"))
+    if p.get("strings") or (not explicit and ('dec2hms' in ob or 'dec2dms' in ob or 'field' in ob or 'strings' in ob)):
+        fl = strings_failures()
+        if fl:
+            bad.append({"strings": True, "what": fl})
+    for sd in p.get("widefield_seeds") or ([] if explicit or 'beamarea' not in ob else [0]):
+        fl = widefield_case(sd)[0]
+        if fl:
+            bad.append({"widefield_seed": sd, "what": fl})
+            break
     bl = p.get("blind_seeds") or ([] if explicit else range(6))
     pr = p.get("priorized_seeds") or ([] if explicit else [[0, True], [1, False], [2, False]])
     er = p.get("errors_seeds") or ([] if explicit else range(400))
@@ -306,4 +382,6 @@ def replay_catalogue(p):
     return {"fails": bool(bad), "observed": bad, "replay_func": "replay_catalogue",
             "replay_payload": {"blind_seeds": [b["blind_seed"] for b in bad if "blind_seed" in b],
                                "priorized_seeds": [b["priorized_seed"] for b in bad if "priorized_seed" in b],
-                               "errors_seeds": [b["errors_seed"] for b in bad if "errors_seed" in b]}}
+                               "errors_seeds": [b["errors_seed"] for b in bad if "errors_seed" in b],
+                               "widefield_seeds": [b["widefield_seed"] for b in bad if "widefield_seed" in b],
+                               "strings": any("strings" in b for b in bad)}}
